@@ -110,12 +110,21 @@ func c16Parsley(data []byte, mk func() parsley.Parser) (out string) {
 	}()
 	f := text.NewFile("doc.json", data)
 	fs := parsley.NewFileSet(f)
-	ctx := parsley.NewContext(fs, text.NewReader(f))
-	res, err := parsley.Evaluate(ctx, mk())
-	if err != nil {
-		return OT("Err", OStr(err.Error()))
+	eval := func() string {
+		ctx := parsley.NewContext(fs, text.NewReader(f))
+		res, err := parsley.Evaluate(ctx, mk())
+		if err != nil {
+			return OT("Err", OStr(err.Error()))
+		}
+		return OT("Val", c16Value(res, false))
 	}
-	return OT("Val", c16Value(res, false))
+	first := eval()
+	// evaluating the same file again (fresh context and reader) must give the same answer:
+	// parsing must not damage the loaded document
+	if second := eval(); second != first {
+		return OT("SecondEvaluationDiffers", first, second)
+	}
+	return first
 }
 
 func c16Enc(data []byte) (out string) {
